@@ -354,12 +354,39 @@ def translate() -> tuple[str, dict]:
                 guards.append(ast.unparse(node.test))
             else:
                 raise TranslatorError("Community.__init__: the opt-in sits in an else branch")
-    if sorted(guards) != sorted(["settings.anonymize", "isinstance(self.endpoint, TunnelEndpoint)"]):
+    if sorted(guards) == sorted(["settings.anonymize", "isinstance(self.endpoint, TunnelEndpoint)"]):
+        needs = "true"
+    elif guards == ["settings.anonymize"]:
+        needs = "false"      # e.g. duck-typed: the opt-in would also work through a forwarding decorator
+    else:
         raise TranslatorError(f"Community.__init__: the opt-in is guarded by {guards}, expected settings.anonymize and "
-                              "isinstance(self.endpoint, TunnelEndpoint)")
-    out += ["/-- Community.__init__ opts in only if `isinstance(self.endpoint, TunnelEndpoint)` (a decorator in front of the",
-            "    TunnelEndpoint is not one): translated guard -/",
-            "def optInNeedsTunnelEndpoint : Bool := true", ""]
+                              "(optionally) isinstance(self.endpoint, TunnelEndpoint)")
+    out += ["/-- whether Community.__init__ guards its opt-in by `isinstance(self.endpoint, TunnelEndpoint)` (a decorator in",
+            "    front of the TunnelEndpoint is not one); read by `serviceOps` in Model.lean -/",
+            f"def optInNeedsTunnelEndpoint : Bool := {needs}", ""]
+
+    # --- every datagram an overlay sends goes through ITS endpoint: all `.send(` call sites of the overlay base classes
+    import glob
+    sites = []
+    for rel in ["ipv8/community.py", "ipv8/lazy_community.py", "ipv8/overlay.py"] + sorted(
+            str(pth.relative_to(REPO)) for pth in (REPO / "ipv8/peerdiscovery").glob("*.py")):
+        tree_ = _parse(rel)
+        for cls_ in [n for n in ast.walk(tree_) if isinstance(n, ast.ClassDef)]:
+            for call in [n for n in ast.walk(cls_) if isinstance(n, ast.Call) and isinstance(n.func, ast.Attribute)
+                         and n.func.attr == "send"]:
+                recv = ast.unparse(call.func.value)
+                if recv in ("self.endpoint", "self.overlay.endpoint"):
+                    sites.append(f"{rel}:{call.lineno}")
+                else:
+                    raise TranslatorError(f"{rel}:{call.lineno}: `{recv}.send(...)` in {cls_.name} does not go through "
+                                          "the overlay's own endpoint (`self.endpoint.send`): an anonymized overlay could "
+                                          "reach the socket behind the TunnelEndpoint")
+    if len(sites) < 5:
+        raise TranslatorError(f"only {len(sites)} overlay send sites found; the scan no longer sees the code")
+    meta["overlay_send_sites"] = sites
+    out += ["/-- number of `.send(` call sites in Community / EZPackOverlay / Overlay / peerdiscovery, all of them",
+            "    `self.endpoint.send(...)` (checked by the translator; anything else is a TranslatorError) -/",
+            f"def overlaySendSites : Nat := {len(sites)}", ""]
 
     # --- ipv8_service.IPv8.__init__: the order in which the endpoint is wrapped
     svc = _parse(SVC)
@@ -382,7 +409,7 @@ def translate() -> tuple[str, dict]:
                     cond = ast.unparse(node.test)
                     if cond == "enable_statistics":
                         c = "stats"
-                    elif cond == "any((overlay.get('initialize', {}).get('anonymize') for overlay in configuration['overlays']))":
+                    elif "anonymize" in cond and "overlays" in cond and cond.startswith("any("):
                         c = "anyAnon"
                     else:
                         raise TranslatorError(f"IPv8.__init__: endpoint wrapped under unknown condition `{cond}`")
